@@ -47,6 +47,8 @@ InitState ==
                            \* dead sharers are different histories of the tracker and must all be explored
     shareable |-> {},      \* ghost: identities that came into being as caller-supplied tuples (while still in use): the only
                            \* storage two live vectors may legitimately share (C15)
+    raw |-> {},            \* ghost: objects made by copy.copy / copy.deepcopy that have not registered yet (Python rebuilds them
+                           \* without __init__: same storage tuple as the original, no registry entry until their first write)
     uown |-> {},           \* ghost: vectors the program created as standalone objects (never a table's)
     everobs |-> {},        \* ghost: <<object, family>> pairs: a read-only operation of that family has been applied to the
                            \* object before (keeps apart the histories in which an implementation might have cached something)
@@ -103,6 +105,7 @@ Settle(S0) ==
         !.fpt = [t \in Tab |-> IF t \in L THEN S0.fpt[t] ELSE NoMemo],
         !.cmap = [t \in Tab |-> IF t \in L THEN S0.cmap[t] ELSE <<>>],
         !.shareable = S0.shareable \cap used,
+        !.raw = S0.raw \cap L,
         !.uown = S0.uown \cap L,
         !.everfp = S0.everfp \cap L,
         !.everobs = {p \in S0.everobs : p[1] \in L} ]
@@ -147,6 +150,15 @@ CopyVec(S, src, s) ==
                 !.kind[o] = S.kind[src], !.nullable[o] = S.nullable[src], !.name[o] = S.name[src],
                 !.uown = @ \cup {o}, !.reg = Register(S.reg, o, s)], "Ok")
 
+(* d = copy.copy(v) / copy.deepcopy(v): Python's own copy protocol, not the library's - the duplicate is rebuilt without
+   __init__, so it sits on v's storage tuple (tuples of immutables are not deep-copied) and is NOT registered.  Harmless as long
+   as the registry is kept exactly: neither is refused, each write swaps in a fresh tuple, and the duplicate registers then.   *)
+RawCopy(S, src) ==
+  LET o == SetMin(DeadObjs(S)) IN
+  Out([S EXCEPT !.live = @ \cup {o}, !.held[o] = TRUE, !.store[o] = S.store[src],
+                !.kind[o] = S.kind[src], !.nullable[o] = S.nullable[src], !.name[o] = S.name[src], !.fpv[o] = S.fpv[src],
+                !.uown = @ \cup {o}, !.raw = @ \cup {o}, !.shareable = @ \cup {S.store[src]}], "Ok")
+
 (* w = v << []  (also v << Vector([]), [] << v): an operation result like any other - a new vector on FRESH storage.
    (CPython returns the SAME tuple for t + (); the pinned tree built the result over v's own tuple, so the result
    was refused a write while v lived.  Deviation "ConcatShares" keeps that behaviour.)                              *)
@@ -171,7 +183,7 @@ WriteVec(S, o, i, x, s) ==
         nv  == [Contents(S, o) EXCEPT ![i] = x]
         reg1 == IF "NoUnregister" \in Devs THEN S.reg ELSE Unregister(S.reg, o, old)
         fpt1 == S.fpt                         \* a table memo (deviation only) is NOT invalidated
-    IN Out([S EXCEPT !.store[o] = s, !.heap[s] = nv,
+    IN Out([S EXCEPT !.store[o] = s, !.heap[s] = nv, !.raw = @ \ {o},
                      !.kind[o] = IF x = FloatV /\ @ # "object" THEN "float" ELSE @,
                      !.nullable[o] = IF x = NoneV THEN TRUE ELSE @,
                      !.reg = Register(reg1, o, s),
@@ -184,7 +196,7 @@ WriteVec(S, o, i, x, s) ==
 WriteNone(S, o, s) ==
   IF ~Writable(S, o) THEN Same(S, "Refused")
   ELSE LET old == S.store[o] IN
-       Out([S EXCEPT !.store[o] = s, !.heap[s] = Contents(S, o),
+       Out([S EXCEPT !.store[o] = s, !.heap[s] = Contents(S, o), !.raw = @ \ {o},
                      !.reg = Register(Unregister(S.reg, o, old), o, s),
                      !.fpv[o] = NoMemo], "Ok")
 
@@ -329,7 +341,7 @@ TabView(S, t) == [i \in 1..Len(S.cols[t]) |-> VecView(S, S.cols[t][i])]
 
 (* ------------------------------------------------------------------ invariants *)
 StoreOf(S, x) == IF x \in Obj THEN S.store[x] ELSE S.tsid[x]
-RegistryExact(S) == \A s \in Sid : S.reg[s] \cap S.live = {x \in S.live : StoreOf(S, x) = s}
+RegistryExact(S) == \A s \in Sid : S.reg[s] \cap S.live = {x \in S.live \ S.raw : StoreOf(S, x) = s}
 Sharers(S, o) == {p \in LiveVec(S) : S.store[p] = S.store[o]}
 NoSpuriousRefusal(S) == \A o \in LiveVec(S) : ~Writable(S, o) => Cardinality(Sharers(S, o)) > 1
 OwnershipDisjoint(S) ==
